@@ -493,7 +493,7 @@ class Target:
             room = cap - 4 - len(hdr)
             if svc == 0x52 and self.caps:
                 c = self.caps.pop(0)
-                room = max(1, min(room, c))
+                room = max(0, min(room, c))          # a (rare) empty fragment with status 6 is legal: the client must re-ask
                 self.choice.setdefault("caps", []).append(room)
             if room < 0:
                 room = 0
